@@ -2,10 +2,14 @@ package wl
 
 import (
 	"fmt"
+	"go/ast"
+	"go/parser"
+	"go/token"
 	"os"
 	"reflect"
 	"regexp"
 	"sort"
+	"strconv"
 	"strings"
 
 	"github.com/xelaj/mtproto/zverif/audit"
@@ -99,6 +103,20 @@ func c13static(c *wk.Ctx) {
 		}
 		idx++
 	}
+	// names: the identifier a constructor is known by in Go is the schema's name for it (type names by reflection,
+	// enum constants by reading the source: the value of a constant named after fileMov must be fileMov's id)
+	if c.Mine(idx) {
+		c.Begin(idx, "names")
+		c13names(c, idx)
+	}
+	idx++
+	// interface membership in both directions: the Go types that satisfy the interface of a schema type are exactly
+	// the constructors of that type
+	if c.Mine(idx) {
+		c.Begin(idx, "interface membership")
+		c13membership(c, idx)
+	}
+	idx++
 	// hand-written wrappers: found by a source scan so that a new one is reported rather than ignored
 	if c.Mine(idx) {
 		c.Begin(idx, "wrapper scan")
@@ -133,4 +151,127 @@ func c13wrapper(c *wk.Ctx, idx int, d *ts.Def) {
 	}
 	c13compare(c, idx, d, apiSchema, gt, true)
 	_ = strings.TrimSpace
+}
+
+func c13norm(name string) string {
+	return strings.ToLower(strings.NewReplacer(".", "", "_", "").Replace(name))
+}
+
+func c13names(c *wk.Ctx, idx int) {
+	byID := map[uint32]*ts.Def{}
+	for _, d := range apiSchema.Defs {
+		byID[d.ID] = d
+	}
+	// struct types
+	for id, gt := range bridge.Objects {
+		d := byID[id]
+		if d == nil || gt.Kind() != reflect.Ptr {
+			continue
+		}
+		got, want := c13norm(gt.Elem().Name()), c13norm(d.Name)
+		ok := got == want || got == want+"obj"
+		if d.IsFunc {
+			ok = got == want+"params"
+		}
+		c.Count("names.types_checked", 1)
+		if !ok {
+			c.Viol("C13", idx, "name/"+d.Name, fmt.Sprintf("%s#%08x is represented by the Go type %s: the name belongs to another definition", d.Name, id, gt.Elem().Name()), d.Line)
+		}
+	}
+	// enum constants, from the source
+	for _, file := range []string{"/repo/telegram/enums_gen.go"} {
+		fs := token.NewFileSet()
+		f, err := parser.ParseFile(fs, file, nil, 0)
+		if err != nil {
+			c.Log.Emit(coreInconclusive("c13 names: " + err.Error()))
+			return
+		}
+		for _, decl := range f.Decls {
+			gd, ok := decl.(*ast.GenDecl)
+			if !ok || gd.Tok != token.CONST {
+				continue
+			}
+			for _, sp := range gd.Specs {
+				vs, ok := sp.(*ast.ValueSpec)
+				if !ok || len(vs.Names) != 1 || len(vs.Values) != 1 {
+					continue
+				}
+				lit, ok := vs.Values[0].(*ast.BasicLit)
+				if !ok || lit.Kind != token.INT {
+					continue
+				}
+				v, err := strconv.ParseUint(lit.Value, 0, 32)
+				if err != nil {
+					continue
+				}
+				d := byID[uint32(v)]
+				c.Count("names.enum_constants_checked", 1)
+				if d == nil {
+					c.Viol("C13", idx, "name/enum-constant/"+vs.Names[0].Name, fmt.Sprintf("constant %s = %#08x: the schema has no constructor with that id", vs.Names[0].Name, v), nil)
+					continue
+				}
+				got, want := c13norm(vs.Names[0].Name), c13norm(d.Name)
+				if got != want && got != want+"obj" {
+					c.Viol("C13", idx, "name/enum-constant/"+d.Name, fmt.Sprintf("constant %s carries %#08x, which is the id of %s", vs.Names[0].Name, v, d.Name), d.Line)
+				}
+			}
+		}
+	}
+	c.Distinct("names", 1)
+}
+
+func c13membership(c *wk.Ctx, idx int) {
+	u := universe()
+	byID := map[uint32]*ts.Def{}
+	for _, d := range apiSchema.Defs {
+		byID[d.ID] = d
+	}
+	for _, d := range mtSchema.Defs {
+		if d.HasID && byID[d.ID] == nil {
+			byID[d.ID] = d
+		}
+	}
+	idsOf := map[reflect.Type][]uint32{}
+	for id, gt := range bridge.Objects {
+		idsOf[gt] = append(idsOf[gt], id)
+	}
+	for _, it := range u.Ifaces() {
+		// the schema type this interface stands for: the result type most of its implementers name
+		votes := map[string]int{}
+		impl := map[string][]string{}
+		for gt, ids := range idsOf {
+			if !gt.Implements(it) {
+				continue
+			}
+			for _, id := range ids {
+				if d := byID[id]; d != nil && !d.IsFunc {
+					votes[d.Result.Name]++
+					impl[d.Result.Name] = append(impl[d.Result.Name], d.Name)
+				}
+			}
+		}
+		if len(votes) == 0 {
+			continue
+		}
+		best := ""
+		for t, n := range votes {
+			if n > votes[best] || (n == votes[best] && t < best) {
+				best = t
+			}
+		}
+		c.Count("membership.interfaces_checked", 1)
+		for t, names := range impl {
+			if t != best {
+				sort.Strings(names)
+				c.Viol("C13", idx, "membership/foreign-implementer/"+it.Name(), fmt.Sprintf("Go interface %s stands for the schema type %s, but is also satisfied by %v, constructors of %s", it.Name(), best, names, t), it.Name())
+			}
+		}
+		for _, d := range apiSchema.ByResult[best] {
+			gt, ok := bridge.Objects[d.ID]
+			if ok && !d.IsFunc && !gt.Implements(it) {
+				c.Viol("C13", idx, "membership/missing-implementer/"+d.Name, fmt.Sprintf("%s is a constructor of %s but its Go type %v does not satisfy %s", d.Name, best, gt, it.Name()), d.Line)
+			}
+		}
+	}
+	c.Distinct("membership", 1)
 }
